@@ -2058,8 +2058,13 @@ def run(ctx):
     lsc = longstack_cases(ctx.rng("longstack"), ctx.budget(60, 2500))
     ctx.correspond("morx-run-longstack", lines=[c[0] for c in lsc], classify=classify_longstack, canon=canon, timeout=300)
     # 3. chain-flag compilation (add_feature + compile + compile_flags)
-    ctx.correspond("morx-compile", lines=compile_lines(ctx.rng("compile"), ctx.budget(1500, 80000)),
-                   classify=classify_compile, canon=canon)
+    dis_c = ctx.correspond("morx-compile", lines=compile_lines(ctx.rng("compile"), ctx.budget(1500, 80000)),
+                           classify=classify_compile, canon=canon)
+    # 3b. the same on fonts whose chain entries carry exclusive-group masks and the deprecated small-caps entry (_morxflags.py)
+    import _morxflags
+    ffc = _morxflags.cases(shim, ctx.rng("feature-flags"), ctx.budget(150, 4000), 8)
+    dis_x = ctx.correspond("morx-compile-exclusive", lines=list(dict.fromkeys(c["compile"] for c in ffc)),
+                           classify=classify_compile, canon=canon)
     # 4. the purge of deleted glyphs (hook) and shape() on fonts with morx next to GSUB / GPOS / kerx / kern / GDEF
     pl = purge_lines(ctx.rng("purge"), ctx.budget(4000, 150000))
     ctx.correspond("morx-purge", lines=pl, classify=classify_purge, canon=canon)
@@ -2073,6 +2078,8 @@ def run(ctx):
     ctx.correspond("morx-run-offrange", lines=offrange_run_lines(ctx.rng("run-offrange"), ctx.budget(1500, 60000), offc),
                    classify=classify_offrange, canon=canon, timeout=300)
     # search
+    _morxflags.search(ctx, shim, ffc, [d["request"] for d in dis_x])
+    _morxflags.promote(ctx, shim, model, "morx-compile / morx-compile-exclusive", list(dis_c) + list(dis_x))
     extreme_search(ctx, shim, xl)
     offrange_search(ctx, shim, offc)
     purge_search(ctx, shim, pl)
@@ -2091,6 +2098,9 @@ def run(ctx):
 def replay(ctx, rp):
     shim = vlib.build_harness()
     st = rp.get("stream")
+    if st in ("morx-feature-flags", "morx-compile-promoted"):
+        import _morxflags
+        return _morxflags.replay(shim, None, rp)
     if st == "morx-corpus":
         f = [x for x in corpus_fonts() if os.path.basename(x) == rp["font"]][0]
         o = vlib.run_groups(shim, [[f"fontfile f {f}", text_req(rp["text"])]], nproc=1)[0][1]
